@@ -22,6 +22,10 @@ static hent_t hd[HSZ], hs[HSZ];            /* records by address, stacks by top 
 static lthread_t * pending[MV_MAXP];
 static lthread_t * owned_stacks[8192]; static int n_owned_stacks;
 static size_t def_stack;
+/* extents of the blocks custom-size stacks were carved from: [base, base + size class) */
+typedef struct { char * lo, * hi; } extent_t;
+static extent_t extents[4096]; static int n_extents;
+static size_t pow2_class(size_t n) { size_t c = 4096; while (c < n) c <<= 1; return c; }
 static long fresh_desc, fresh_stack, owned_desc, owned_stack_def, max_owned_desc, max_owned_stack, cross_frees, recycled;
 static volatile int llock; static int poison_on = 1;
 #define POISON_LEN 1024
@@ -59,6 +63,16 @@ static void on_alloc(int kind, void * ptr, size_t size, int rank) {
     for (int i = 0; i < n_owned_stacks; i++) {
       lthread_t * o = owned_stacks[i];
       if (lo < o->hi && o->lo < hi) { ulk(); mt_fail("ledger: new stack [%p,%p) overlaps the stack [%p,%p) of a live thread", (void *)lo, (void *)hi, (void *)o->lo, (void *)o->hi); }
+    }
+    if (size) {
+      /* a custom-size stack occupies the first `size` bytes of a block of the allocator's size class;
+         a recycled block must be handed out from its base again */
+      int inside = 0;
+      for (int i = 0; i < n_extents; i++) {
+        if (lo == extents[i].lo && hi <= extents[i].hi) { inside = 1; break; }
+        if (lo < extents[i].hi && extents[i].lo < hi) { ulk(); mt_fail("ledger: custom stack [%p,%p) handed out at a shifted position inside / across the block [%p,%p) it was carved from earlier (released with a wrong start or size)", (void *)lo, (void *)hi, (void *)extents[i].lo, (void *)extents[i].hi); }
+      }
+      if (!inside && n_extents < 4096) { extents[n_extents].lo = lo; extents[n_extents].hi = lo + pow2_class(sz); n_extents++; }
     }
     hent_t * h = hfind(hs, hi, 1);
     if (h->state == 2 && h->last_size != sz) { ulk(); mt_fail("ledger: block released as a %zu-byte stack handed out again as a %zu-byte stack (wrong size class on release)", h->last_size, sz); }
